@@ -500,12 +500,22 @@ fn adder(field: &str, delta: &str) -> Box<dyn Fn(&mut [u8]) + Send + Sync> {
     }
 }
 
+/// number of runs that hit their wall-clock limit so far: honest runs / runs with an altered message
+static HONEST_HANGS: AtomicUsize = AtomicUsize::new(0);
+static ATTACK_HANGS: AtomicUsize = AtomicUsize::new(0);
+
 fn run_blocking(field: &str, spec: Spec, interceptor: Option<Arc<Tamper>>, corrupt: Option<usize>) -> Result<Outcome, String> {
     let field = field.to_string();
     // honest runs finish within a second or two; a run in which an honest helper stopped may leave the others
-    // waiting for its (never flushed) messages: that hang is an abort, and is not waited for long
-    let secs = if corrupt.is_some() { 12 } else { 60 };
-    block_on_timeout(secs, async move {
+    // waiting for its (never flushed) messages: that hang is an abort, and is not waited for long.
+    // If runs keep hanging (a change that blocks every run), the limit drops so that the suite still ends.
+    let counter = if corrupt.is_some() { &ATTACK_HANGS } else { &HONEST_HANGS };
+    let secs = match (corrupt.is_some(), counter.load(Ordering::SeqCst)) {
+        (true, 0..=5) => 12,
+        (false, 0..=1) => 40,
+        _ => 5,
+    };
+    let r = block_on_timeout(secs, async move {
         match field.as_str() {
             "Fp31" => run_fp31(spec, interceptor, corrupt).await,
             "Fp32BitPrime" => run_fp32(spec, interceptor, corrupt).await,
@@ -513,7 +523,11 @@ fn run_blocking(field: &str, spec: Spec, interceptor: Option<Arc<Tamper>>, corru
             "Fp25519x16" => run_fp25519x16(spec, interceptor, corrupt).await,
             f => panic!("harness: unknown field {f}"),
         }
-    })
+    });
+    if r.is_err() {
+        counter.fetch_add(1, Ordering::SeqCst);
+    }
+    r
 }
 
 fn show_opened(o: &[Vec<String>]) -> String {
